@@ -102,7 +102,7 @@ func planC06(tier string, seed int64) (*core.Plan, error) {
 				}
 			}
 			// determinism: the repository's own test modules
-			root := "/repo/parser/testdata"
+			root := core.RepoDir+"/parser/testdata"
 			filepath.Walk(root, func(path string, info os.FileInfo, err error) error {
 				if err == nil && !info.IsDir() && strings.HasSuffix(path, ".yang") {
 					emit(core.Case{"kind": "determinism", "dir": filepath.Dir(path), "file": strings.TrimSuffix(filepath.Base(path), ".yang")})
